@@ -37,6 +37,9 @@ var facts = []fact{
 	{"routeTableBase", "Nat", "plugin/driver/utils/utils_linux.go", "GetRouteTableID", "binlit + 0", "1000 + linkIndex"},
 	{"vethHashLen", "Nat", "pkg/link/veth.go", "VethNameForPod", "slicehigh 0", "hex digest truncation"},
 	{"gatewayIndex", "Int", "pkg/ip/ip.go", "DeriveGatewayIP", "callarg GetIPAtIndex 1 0", "index passed to GetIPAtIndex"},
+	// C13
+	{"dpToContainerPriority", "Nat", "plugin/datapath/consts_linux.go", "", "const toContainerPriority", "ip rule priority of the to-pod rule"},
+	{"dpFromContainerPriority", "Nat", "plugin/datapath/consts_linux.go", "", "const fromContainerPriority", "ip rule priority of the from-pod rule"},
 	// C15
 	{"bwKilo", "Nat", "pkg/k8s/k8s.go", "", "const KILOBYTE", "unit multiplier"},
 	{"bwMega", "Nat", "pkg/k8s/k8s.go", "", "const MEGABYTE", "unit multiplier"},
